@@ -33,11 +33,19 @@ is never touched).
 
 Rounds 3-5 told the authors that a large randomized differential test of the obvious paths exists (round 3: aim at rare
 options, state that survives calls, real-process timing, loop boundaries; rounds 5 and 5b: act through helper modules the
-property's record does not name, or through two cooperating edits in two files).
+property's record does not name, or through two cooperating edits in two files; round 6: break the property only when two or
+three legal features are combined).
 
-Result: **all {n} are caught (exit 1 with a concrete failing input as the replay), {n - 1} of them by the check of the
-property they target**; the one exception is `C11-r5m2` (a coordinator spin that needs a Ctrl-C: interrupts are outside
-C11's quantifier and the change is caught by C14, which owns them). {missed} were *missed* at first by the targeted
+Result: **all {n} are caught (exit 1 with a concrete failing input as the replay), {n - 2} of them by the check of the
+property they target**; the two exceptions are `C11-r5m2` (a coordinator spin that needs a Ctrl-C: interrupts are outside
+C11's quantifier and the change is caught by C14, which owns them) and `C08-r6m1` (a failed *save* of a re-execution keeps
+the old, now corrupt entry: caught by C12 and C13, which own failed overwrites; C08's histories have failing executions only).
+Round 6 (feature interactions, the last hour of the budget) left **two changes open** - they are kept, with their
+demonstrations, under `notes/open_mutations/` and are NOT part of the {n}: `C08-m2` (`run_task(bust_cache=True)` rewritten as
+uncache-then-run, so cached dependencies are not re-executed: the history alphabet has no singular `run_task`) and `C10-m2`
+(`ProcessRunner.close()` waits for running workers and thereby starts queued tasks after a fail-fast failure: under the
+fake-process layer nobody releases those workers, the run hangs in `close()`; a per-call watchdog now turns that into a
+`HANG` status, but the check against this change was not re-run to completion in the time left). {missed} were *missed* at first by the targeted
 check; each miss led to a strengthening of the machinery (never to a loosened check), named in the last column and
 summarised below the table.
 
